@@ -96,7 +96,22 @@ func evilServer(dir string) {
 			b, _ := os.ReadFile(pick)
 			raw, _ := hex.DecodeString(strings.TrimSuffix(filepath.Base(pick), ".cacnk"))
 			id, _ := desync.ChunkIDFromSlice(raw)
-			p.SendProtocolChunk(id, desync.CaProtocolChunkCompressed, b)
+			reqID, _ := desync.ChunkIDFromSlice(m.Body[8:40])
+			switch os.Getenv("SHIM_EVIL_MODE") {
+			default: // the other chunk, complete and valid, under its own id
+				p.SendProtocolChunk(id, desync.CaProtocolChunkCompressed, b)
+			case "requested-id": // ... under the requested id
+				p.SendProtocolChunk(reqID, desync.CaProtocolChunkCompressed, b)
+			case "unflagged-plain": // not marked as compressed: the other chunk's plain data under the requested id
+				plain, _ := desync.Decompress(nil, b)
+				p.SendProtocolChunk(reqID, 0, plain)
+			case "unflagged-compressed": // not marked as compressed, yet compressed
+				p.SendProtocolChunk(reqID, 0, b)
+			case "unflagged-garbage":
+				p.SendProtocolChunk(reqID, 0, []byte("neither a zstd frame nor the chunk that was asked for"))
+			case "unflagged-empty":
+				p.SendProtocolChunk(reqID, 0, nil)
+			}
 		case desync.CaProtocolGoodbye:
 			return
 		default:
